@@ -39,7 +39,7 @@ Theorem C12_order_refuted : exists nodes ftext,
   /\ rep [1] = [(1, (VInt 5, VInt 2))].
 Proof.
   exists [ inp (VInt 1); fml [0] (VInt 5) (FBin Add (ORef 0) (OLit 1));
-           fml [1] (VInt 3) (FBin Add (ORef 1) (OLit 1)) ].
+           fml [1] (VInt 3) (FBin Add (ORef 0) (OLit 1)) ].
   exists (fun _ => [61%Z]).
   cbn zeta. repeat split; vm_compute; reflexivity.
 Qed.
